@@ -836,6 +836,9 @@ def create_enum_typemap(node):
             "static_cast<{namespace_scope}{enum_name}>({{c_var}})", fmt_enum
         )
         ntypemap.cxx_to_c = "static_cast<int>({cxx_var})"
+        # The clone carries the flat_name "int"; helpers are named by
+        # flat_name, so the enum would replace the helpers for int.
+        ntypemap.flat_name = None
         ntypemap.compute_flat_name()
         register_type(type_name, ntypemap)
     return ntypemap
